@@ -54,7 +54,7 @@ class AsyncQueue[Element](AsyncIterator[Element]):
         if self.is_finished:
             return  # already finished, ignore
 
-        self._finish_reason = exception or StopAsyncIteration()
+        self._finish_reason = exception if exception is not None else StopAsyncIteration()
 
         if self._waiting is not None and not self._waiting.done():
             self._waiting.set_exception(self._finish_reason)
